@@ -142,7 +142,7 @@ var c02Times = []time.Time{
 	time.Date(2024, 1, 2, 3, 4, 6, 0, time.UTC),
 	time.Date(2023, 12, 31, 23, 59, 59, 0, time.UTC),
 }
-var c02SDomain = []string{"x", "y", "xy", "x,y", "yx", "y,x"}
+var c02SDomain = []string{"x", "y", "xy", "x,y", "yx", "y,x", ""}
 var c02BDomain = []string{"xy", "x", "yx"}
 
 func (r c02VRow) String() string {
@@ -186,8 +186,13 @@ func c02GenVRows(rng *rand.Rand, n int) []c02VRow {
 	return rows
 }
 
-func c02OpenV(rows []c02VRow) (*gorm.DB, *sql.DB) {
-	db, _, sqlDB := OpenRec(&gorm.Config{NowFunc: fixedNowFunc})
+func c02OpenV(rows []c02VRow, mode ...int) (*gorm.DB, *sql.DB) {
+	cfg := &gorm.Config{NowFunc: fixedNowFunc}
+	if len(mode) > 0 {
+		cfg.PrepareStmt = mode[0]&1 != 0
+		cfg.SkipDefaultTransaction = mode[0]&2 != 0
+	}
+	db, _, sqlDB := OpenRec(cfg)
 	if err := db.AutoMigrate(&C02V{}); err != nil {
 		panic(err)
 	}
@@ -282,6 +287,7 @@ func (c c02VCond) eval(r c02VRow) v3 {
 }
 
 type c02VUnit struct {
+	Via   string // "" direct | scope (db.Scopes(func)) | group (db.Where(db.Where(..)))
 	Op    string // where or not
 	Conds []c02VCond
 	Desc  string
@@ -327,7 +333,7 @@ type c02TV struct {
 	Forms []string
 }
 
-var c02AllScalarForms = []string{"map", "map2", "col", "raw", "named", "namedmap", "eq", "neq", "in1", "in2", "struct"}
+var c02AllScalarForms = []string{"map", "map2", "mapii", "col", "raw", "named", "namedmap", "eq", "neq", "in1", "in2", "struct"}
 
 func c02Without(xs []string, drop ...string) []string {
 	var out []string
@@ -413,7 +419,7 @@ func c02GenTV(rng *rand.Rand) c02TV {
 			}{{(*int)(nil), "(*int)(nil)"}, {sql.NullInt64{}, "sql.NullInt64{}"}, {(*c02IntBox)(nil), "(*c02IntBox)(nil)"},
 				{(*c02Digit)(nil), "(*c02Digit)(nil)"}, {(*c02IntSum)(nil), "(*c02IntSum)(nil)"}, {(*sql.NullInt64)(nil), "(*sql.NullInt64)(nil)"}}
 			p := vals[rng.Intn(len(vals))]
-			return c02TV{Col: "a", Cond: null, V: p.v, Desc: p.d, Class: "nilish", Kind: "nil", Forms: []string{"map", "map2", "col", "eq", "neq"}}
+			return c02TV{Col: "a", Cond: null, V: p.v, Desc: p.d, Class: "nilish", Kind: "nil", Forms: []string{"map", "map2", "mapii", "col", "eq", "neq"}}
 		default:
 			// PLAIN lists: IN
 			y := (x + 1 + rng.Intn(2)) % 4
@@ -426,7 +432,7 @@ func c02GenTV(rng *rand.Rand) c02TV {
 			case 2:
 				return c02TV{Col: "a", Cond: in, V: &[]int{x, y}, Desc: fmt.Sprintf("&[]int{%d,%d}", x, y), Class: "list", Kind: "ptr-slice", Forms: []string{"map", "map2"}}
 			}
-			return c02TV{Col: "a", Cond: in, V: []int{x, y}, Desc: fmt.Sprintf("[]int{%d,%d}", x, y), Class: "list", Kind: "slice", Forms: []string{"map", "map2", "col", "eq", "neq", "rawin"}}
+			return c02TV{Col: "a", Cond: in, V: []int{x, y}, Desc: fmt.Sprintf("[]int{%d,%d}", x, y), Class: "list", Kind: "slice", Forms: []string{"map", "map2", "mapii", "col", "eq", "neq", "rawin"}}
 		}
 	case 3, 4, 5, 6: // text column
 		x := c02SDomain[rng.Intn(len(c02SDomain))]
@@ -435,6 +441,9 @@ func c02GenTV(rng *rand.Rand) c02TV {
 			return c02TV{Col: "s", Cond: eq, V: v, Desc: desc, Class: class, Kind: kind, Forms: forms}
 		}
 		all := c02AllScalarForms
+		if x == "" {
+			all = c02Without(all, "struct") // a zero struct field adds no condition
+		}
 		dv := append(append([]string{}, all...), "rawin")
 		gv := c02Without(all, "struct")
 		switch rng.Intn(14) {
@@ -473,7 +482,7 @@ func c02GenTV(rng *rand.Rand) c02TV {
 			}{{(*string)(nil), "(*string)(nil)"}, {sql.NullString{}, "sql.NullString{}"}, {(*c02Tags)(nil), "(*c02Tags)(nil)"},
 				{(*c02Chars)(nil), "(*c02Chars)(nil)"}, {(*c02StrBox)(nil), "(*c02StrBox)(nil)"}}
 			p := vals[rng.Intn(len(vals))]
-			return c02TV{Col: "s", Cond: null, V: p.v, Desc: p.d, Class: "nilish", Kind: "nil", Forms: []string{"map", "map2", "col", "eq", "neq"}}
+			return c02TV{Col: "s", Cond: null, V: p.v, Desc: p.d, Class: "nilish", Kind: "nil", Forms: []string{"map", "map2", "mapii", "col", "eq", "neq"}}
 		default:
 			y := c02SDomain[rng.Intn(len(c02SDomain))]
 			in := c02VCond{Col: "s", Op: "in", Keys: []string{x, y}}
@@ -483,7 +492,7 @@ func c02GenTV(rng *rand.Rand) c02TV {
 			case 1:
 				return c02TV{Col: "s", Cond: in, V: [2]string{x, y}, Desc: fmt.Sprintf("[2]string{%q,%q}", x, y), Class: "list", Kind: "array", Forms: []string{"map", "map2", "rawin"}}
 			}
-			return c02TV{Col: "s", Cond: in, V: []string{x, y}, Desc: fmt.Sprintf("[]string{%q,%q}", x, y), Class: "list", Kind: "slice", Forms: []string{"map", "map2", "col", "eq", "neq", "rawin"}}
+			return c02TV{Col: "s", Cond: in, V: []string{x, y}, Desc: fmt.Sprintf("[]string{%q,%q}", x, y), Class: "list", Kind: "slice", Forms: []string{"map", "map2", "mapii", "col", "eq", "neq", "rawin"}}
 		}
 	case 7, 8: // blob column
 		x := c02BDomain[rng.Intn(len(c02BDomain))]
@@ -513,9 +522,9 @@ func c02GenTV(rng *rand.Rand) c02TV {
 			return c02TV{Col: "at", Cond: eq, V: sql.NullTime{Time: t, Valid: true}, Desc: fmt.Sprintf("sql.NullTime{time[%d]}", i), Class: "dvaluer", Kind: "struct", Forms: append(append([]string{}, forms...), "rawin")}
 		case 2:
 			if rng.Intn(2) == 0 {
-				return c02TV{Col: "at", Cond: c02VCond{Col: "at", Op: "null"}, V: sql.NullTime{}, Desc: "sql.NullTime{}", Class: "nilish", Kind: "nil", Forms: []string{"map", "map2", "col", "eq", "neq"}}
+				return c02TV{Col: "at", Cond: c02VCond{Col: "at", Op: "null"}, V: sql.NullTime{}, Desc: "sql.NullTime{}", Class: "nilish", Kind: "nil", Forms: []string{"map", "map2", "mapii", "col", "eq", "neq"}}
 			}
-			return c02TV{Col: "at", Cond: c02VCond{Col: "at", Op: "null"}, V: (*time.Time)(nil), Desc: "(*time.Time)(nil)", Class: "nilish", Kind: "nil", Forms: []string{"map", "map2", "col", "eq", "neq"}}
+			return c02TV{Col: "at", Cond: c02VCond{Col: "at", Op: "null"}, V: (*time.Time)(nil), Desc: "(*time.Time)(nil)", Class: "nilish", Kind: "nil", Forms: []string{"map", "map2", "mapii", "col", "eq", "neq"}}
 		}
 		return c02TV{Col: "at", Cond: eq, V: t, Desc: fmt.Sprintf("time[%d]", i), Class: "scalar", Kind: "struct", Forms: forms}
 	}
@@ -559,6 +568,9 @@ func c02TypedUnit(rng *rand.Rand, tv c02TV, form string) c02VUnit {
 		}
 		u.Desc = fmt.Sprintf("map{%s: %s, %s: %s}", col, tv.Desc, oc, od)
 		u.Go = func() (interface{}, []interface{}) { return map[string]interface{}{col: v, oc: ov}, nil }
+	case "mapii":
+		u.Desc = fmt.Sprintf("map[interface{}]interface{}{%s: %s}", col, tv.Desc)
+		u.Go = func() (interface{}, []interface{}) { return map[interface{}]interface{}{col: v}, nil }
 	case "col":
 		u.Desc = fmt.Sprintf("%q, %s", col, tv.Desc)
 		u.Go = func() (interface{}, []interface{}) { return col, []interface{}{v} }
@@ -647,8 +659,27 @@ type c02ValCase struct {
 }
 
 func c02ApplyUnits(db *gorm.DB, units []c02VUnit) *gorm.DB {
+	root := db
 	for _, u := range units {
 		q, args := u.Go()
+		switch u.Via {
+		case "scope":
+			// the condition reaches the statement only through a scope function (executed by the finisher)
+			op, q0, a0 := u.Op, q, args
+			db = db.Scopes(func(d *gorm.DB) *gorm.DB {
+				switch op {
+				case "or":
+					return d.Or(q0, a0...)
+				case "not":
+					return d.Not(q0, a0...)
+				}
+				return d.Where(q0, a0...)
+			})
+			continue
+		case "group":
+			// … or through a grouped sub-builder
+			q, args = freshHandle(root).Where(q, args...), nil
+		}
 		switch u.Op {
 		case "where":
 			db = db.Where(q, args...)
@@ -706,21 +737,43 @@ func c02ValsOne(r *Result, seed int64) {
 	if typed.Op == "or" && len(units) == 0 {
 		typed.Op = "where"
 	}
+	via := rng.Intn(6)
 	units = append(units, typed)
+	ti := len(units) - 1
 	if rng.Intn(3) == 0 {
 		p := c02PlainUnit(rng)
 		p.Op = []string{"where", "or", "not"}[rng.Intn(3)]
 		units = append(units, p)
 	}
-	db, sqlDB := c02OpenV(rows)
+	switch {
+	case via == 0 && ti == len(units)-1:
+		// scopes are executed by the finisher AFTER the chain's own calls: only the last unit may come through a scope
+		units[ti].Via = "scope"
+	case via == 1:
+		units[ti].Via = "group"
+	}
+	typed = units[ti]
+	mode := 0
+	if rng.Intn(3) == 0 {
+		mode = 1 + rng.Intn(3) // PrepareStmt and/or SkipDefaultTransaction
+	}
+	db, sqlDB := c02OpenV(rows, mode)
 	defer sqlDB.Close()
+	r.H("vals.config", fmt.Sprintf("prepare=%v skiptx=%v", mode&1 != 0, mode&2 != 0))
 	rowStr := make([]string, len(rows))
 	for i, x := range rows {
 		rowStr[i] = x.String()
 	}
 	var desc []string
 	for _, u := range units {
-		desc = append(desc, u.Op+"("+u.Desc+")")
+		switch u.Via {
+		case "scope":
+			desc = append(desc, "Scopes(func(d){ return d."+u.Op+"("+u.Desc+") })")
+		case "group":
+			desc = append(desc, u.Op+"(db.Where("+u.Desc+"))")
+		default:
+			desc = append(desc, u.Op+"("+u.Desc+")")
+		}
 	}
 	want := []int{}
 	for _, x := range rows {
@@ -731,10 +784,11 @@ func c02ValsOne(r *Result, seed int64) {
 	base := db.Session(&gorm.Session{})
 	before, _ := c02DumpV(db)
 	fins := []string{"find", "count", "pluck", "update", "updates-map", "delete"}
-	if units[len(units)-1].Op == "where" {
+	if units[len(units)-1].Op == "where" && units[len(units)-1].Via == "" {
 		fins = append(fins, "find-inline", "first-inline", "delete-inline")
 	}
 	r.H("vals.class", tv.Class+"/"+tv.Kind)
+	r.H("vals.via", typed.Via)
 	r.H("vals.form", typed.Op+":"+form)
 	r.H("vals.col", tv.Col)
 	for _, fin := range fins {
@@ -1154,7 +1208,7 @@ var _ = sort.Ints
 
 func init() {
 	register("C02", func(r *Result, rng *rand.Rand, tier string) {
-		n := map[string]int{"quick": 450, "thorough": 6000, "search": 3000}[tier]
+		n := map[string]int{"quick": 600, "thorough": 6000, "search": 3000}[tier]
 		for i := 0; i < n && !expired(); i++ {
 			c02ValsOne(r, rng.Int63())
 		}
